@@ -345,7 +345,7 @@ class Ctx:
         except Exception as e:  # cola's own refusal is a result
             if _raised_in_harness(e):
                 raise
-            out = ["exc", type(e).__name__]
+            out = [_exc_kind(e), type(e).__name__]
         self.events.append(("reenter", cur.sid, sub["fn"], jhash(out)))
         self.compare_result(key, out, sub, "reentrant call inside callback of step %d" % cur.sid)
 
@@ -401,8 +401,14 @@ class Ctx:
     def compare_result(self, key, out, step, where):
         prev = self.results.get(key)
         now_state = rm.state_digest()
-        if prev is None:
+        if prev is None or prev["out"][0] == "warned":
             self.results[key] = {"out": out, "state": now_state, "where": where}
+            return
+        if out[0] == "warned":
+            # a warning the user asked to be raised (warnings filter "error"): whether Python issues a warning depends, by
+            # the design of the warnings module and of lazily initialised third-party code (beartype / plum emit deprecation
+            # warnings the first time a signature is resolved), on what ran before -- not a result to compare
+            self.stats["calls_ended_by_a_raised_warning"] += 1
             return
         if prev["state"] != now_state:
             self.stats["repeat_with_different_global_state"] += 1
@@ -906,7 +912,7 @@ class Ctx:
             a[0] for a in cur_used.values())))))
         if "shim" in tags(step["fn"]):
             self.stats["shim_calls"] += 1
-        if outcome[0] in ("ok", "exc"):
+        if outcome[0] in ("ok", "exc", "warned"):
             self.compare_result(key, outcome[:2], step, "step %d" % sid)
             if outcome[0] == "ok" and "hutch" in tags(step["fn"]):
                 self.check_hutch_steps(step, args)
@@ -1047,7 +1053,7 @@ class Ctx:
                     out = ["ok", result_digest(res)]
                 except BaseException as e:  # noqa
                     n = ALLOC.disarm()[0]
-                    out = ["exc", type(e).__name__]
+                    out = [_exc_kind(e), type(e).__name__]
                 msg = json.dumps({"out": out, "nalloc": n, "ncb": cur.ncb, "pbar_updates": FakeBar.updates - upd0,
                                   "rng_sections": world.rng_sections()})
                 os.write(w, msg.encode())
@@ -1148,7 +1154,7 @@ class Ctx:
             elif _raised_in_harness(e):
                 raise
             else:
-                outcome = ["exc", type(e).__name__]
+                outcome = [_exc_kind(e), type(e).__name__]
         finally:
             if "nonfinite" in cur.fault_fired:
                 signal.alarm(0)
@@ -1219,7 +1225,7 @@ class Ctx:
                 where = "first" if pos == 0 else ("last" if pos == n - 1 else "middle")
                 self.stats["raise_at_" + where] += 1
         tw = f.get("twin")
-        if tw is not None and step["op"] == "call" and tw["out"][0] in ("ok", "exc"):
+        if tw is not None and step["op"] == "call" and tw["out"][0] in ("ok", "exc", "warned"):
             # reference outcome of the fault-free twin: what a later fault-free repeat must return
             key = self.ckey(step)
             if key not in self.results:
@@ -1282,6 +1288,10 @@ def _cola_frame(e):
             last = "%s:%d in %s" % (fn[fn.index("/cola/") + 1:], tb.tb_lineno, tb.tb_frame.f_code.co_name)
         tb = tb.tb_next
     return last
+
+
+def _exc_kind(e):
+    return "warned" if isinstance(e, Warning) else "exc"
 
 
 def _raised_in_harness(e):
@@ -1418,7 +1428,8 @@ def run_program(program):
         "program": mat,
         "culprits": ctx.culprits[:5],
         "call_results": ({k: jhash(v["out"]) for k, v in list(ctx.results_by_epoch.items())
-                          + [("|".join(ctx.import_epoch) + "#" + k, v) for k, v in ctx.results.items()]}
+                          + [("|".join(ctx.import_epoch) + "#" + k, v) for k, v in ctx.results.items()]
+                          if v["out"][0] != "warned"}
                          if ((program.get("config") or {}).get("letters") or program.get("want_results")) else None),
         "results_digest": jhash({k: v["out"] for k, v in list(ctx.results_by_epoch.items()) + list(ctx.results.items())}),
     }
